@@ -816,7 +816,8 @@ impl ValueSize for Path {
 
 impl HeapSize for PathBuf {
     fn heap_size(&self) -> usize {
-        self.as_path().mem_size()
+        // As for String and OsString, the buffer includes spare capacity.
+        self.capacity()
     }
 }
 
